@@ -305,6 +305,8 @@ pub trait Monitor {
         out: &CallOut,
         stats: &mut Stats,
     ) -> Option<(String, String)>;
+    /// called once after construction with the initial snapshot
+    fn start(&mut self, _case: &FwCase, _snap: &Snapshot) {}
     /// called once at the end; returns whether the run was non-trivial
     fn nontrivial(&self) -> bool;
 }
@@ -342,6 +344,7 @@ pub fn run_case(
             };
         }
     };
+    mon.start(case, &fw.verif_snapshot());
     let mut sut_panicked = None;
     let mut prev_now = case.start;
     for (k, call) in case.calls.iter().enumerate() {
